@@ -61,7 +61,8 @@ def gen_stream_case(rng, max_len=None):
         idx[i] += 1
         r = rng.random()
         if r < 0.15:  # flow control frame (on an rx id or on a foreign id)
-            merged.append((rng.choice(rx + NOISE_POOL), bytes([0x30, rng.choice([0, 8, 255]), 0]) +
+            merged.append((rng.choice(rx + NOISE_POOL),
+                           bytes([0x30 | rng.choice([0, 0, 1, 2, 2, 7, 15]), rng.choice([0, 8, 255]), 0]) +
                            bytes(rng.choice([0, 5]))))
         elif r < 0.25:  # unrelated id, arbitrary content
             merged.append((rng.choice(NOISE_POOL), rand_telegram(rng, rng.randint(0, 8))))
@@ -154,6 +155,11 @@ def main(argv=None):
                     merged.append(fb[ib]); ib += 1
             cases.append(([0x7E0, 0x7E8], merged, {0x7E0: [ta], 0x7E8: [tb]}, [0x700, 0x708], 0, 0,
                           "exhaustive-interleaving"))
+        for flag in range(16):
+            for pos in range(len(fa) + 1):
+                for fcid in (0x7E0, 0x7E8):
+                    st = fa[:pos] + [(fcid, bytes([0x30 | flag, 0, 0]))] + fa[pos:]
+                    cases.append(([0x7E0, 0x7E8], st, {0x7E0: [ta]}, [0x700, 0x708], 0, 0, "fc-sweep"))
         ck.coverage["exhaustive_interleavings"] = sum(1 for c in cases if c[6] == "exhaustive-interleaving")
         # 3. random interleaved multi-id streams with flow control and noise
         for _ in range(300 if quick else 6000):
